@@ -10,7 +10,7 @@ KERNELS = [
       [(r"scale\.size\(\)", "ssize")], [("i", "Z"), ("ssize", "Z")], "c10", ["C10"]),
     # score_kbest(): number of candidates k = 1..max_kbest
     K("src_c10_max_kbest", "src/wlearner/table.cpp",
-      r"void score_kbest\(.*?max_kbest\s*=\s*(max_kbest.*?);",
+      r"void score_kbest\(.*?\)\s*\{.*?\n\s*max_kbest\s*=\s*(.*?);",
       [], [("max_kbest", "Z"), ("bins", "Z")], "c10", ["C10"]),
     K("src_c10_kbest_continue", "src/wlearner/table.cpp",
       r"void score_kbest\(.*?for \(tensor_size_t kbest = 1;\s*(.*?);",
